@@ -320,6 +320,103 @@ def fam_awaiters(E, real=False):
         E.prove(ok, 'cancel-outcome')
 
 
+def fam_cancel_close(E, real=False):
+    """cancel(token), then the owning scope is abandoned (its body raises) at a later or the
+    same instant: the outcome recorded by the cancellation must survive the forced close"""
+    d1 = E.num('d1', 0, 20, real=real)
+    x = E.num('x', 0, 20, real=real)
+    px = E.pick('px', 2)
+    y = E.num('y', 0, 20, real=real)
+    py = E.pick('py', 2)
+    delayed = E.flag('delayed')
+    d0 = E.num('d0', 0, 20, real=real) if delayed else None
+    log = Log()
+    box = []
+    tok = object()
+    err = UserErr('body')
+
+    async def victim():
+        log('v', 'step0')
+        try:
+            await (time + d1)
+        except CancelTask:
+            log('v', 'cancel-seen')
+            raise
+        log('v', 'end')
+        return 'R'
+
+    async def holder():
+        try:
+            async with Scope() as inner:
+                box.append(inner.do(victim(), after=d0) if delayed else inner.do(victim()))
+                await at_cp(x, px)
+                task = box[0]
+                log('h', 'cancel', task._result, log.has('v', 'step0'))
+                task.cancel(tok)
+                log('h', 'cancelled', task._result)
+                await at_cp(y, py)
+                log('h', 'raise', task._result)
+                raise err
+        except UserErr:
+            log('h', 'caught')
+
+    async def late_awaiter():
+        await (time + 100)
+        try:
+            res = await box[0]
+            log('a', 'value', res)
+        except BaseException as exc:        # noqa
+            log('a', 'raised', exc)
+
+    async def root():
+        async with Scope() as outer:
+            outer.do(holder())
+            outer.do(late_awaiter())
+
+    seq = []
+    probe = Probe()
+    probe.hooks.append(status_monitor(E, box, seq))
+    out = simulate(root(), log=log, probe=probe)
+    bad = classify_run_exception(out.exc, allowed=())
+    E.prove(bad is None, 'run-ends-normally', bad)
+    if out.exc is not None:
+        return
+    check_status_sequence(E, seq)
+    task = box[0]
+    ce, cd, rs = log.first('h', 'cancel'), log.first('h', 'cancelled'), log.first('h', 'raise')
+    aw = log.first('a', 'value') or log.first('a', 'raised')
+    if not E.prove(ce is not None and aw is not None, 'ran'):
+        return
+    if ce[3] is not None:
+        E.reach('cancel-after-finish')
+        E.prove(task._result is ce[3], 'outcome-unchanged-by-late-cancel')
+    elif not ce[4]:
+        E.reach('cancel-before-start')
+        # cancelled before any of its code ran: done at once, with the token, for good
+        if not delayed:
+            E.prove(cd[3] is not None and isinstance(cd[3][1], TaskCancelled),
+                    'cancelled-immediately')
+            E.prove(not log.has('v', 'step0'), 'cancelled-before-start-runs-no-code')
+        if cd[3] is not None:
+            E.prove(task._result is cd[3], 'outcome-never-changes-once-done',
+                    ('outcome at cancel %r, finally %r', cd[3], task._result))
+    else:
+        E.reach('cancel-while-suspended')
+    if rs is not None and rs[3] is not None:
+        E.reach('done-before-scope-abandoned')
+        E.prove(task._result is rs[3], 'outcome-never-changes-once-done',
+                ('outcome before the scope was abandoned %r, finally %r', rs[3], task._result))
+    res = task._result
+    if E.prove(res is not None, 'task-finished'):
+        if res[1] is None:
+            E.prove(aw[1] == 'value' and aw[3] is res[0], 'awaiter-gets-stored-outcome')
+        else:
+            E.prove(aw[1] == 'raised' and aw[3] is res[1], 'awaiter-gets-stored-outcome')
+        if isinstance(res[1], TaskCancelled):
+            E.prove(res[1].subject is task and res[1].args == (tok,),
+                    'TaskCancelled-carries-task-and-token', ('%r', res[1].args))
+
+
 FAMILIES = [
     Family('cancel', fam_cancel,
            quick=dict(with_delay=False, twice_modes=2),
@@ -332,6 +429,12 @@ FAMILIES = [
            thorough=dict(with_delay=True),
            reach=['cancel-after-finish', 'cancel-before-start', 'cancel-while-suspended'],
            bounds='victim started with after=d0'),
+    Family('cancel_close', fam_cancel_close,
+           quick=dict(),
+           thorough=dict(),
+           reach=['cancel-after-finish', 'cancel-before-start', 'cancel-while-suspended',
+                  'done-before-scope-abandoned'],
+           bounds='cancel at (x,px) by the scope body, body raises at (y,py); optional start delay'),
     Family('awaiters', fam_awaiters,
            quick=dict(),
            thorough=dict(),
